@@ -24,16 +24,40 @@ val add : nat -> nat -> nat
 
 val sub : nat -> nat -> nat
 
-val eqb : bool -> bool -> bool
-
 module Nat :
  sig
+  val sub : nat -> nat -> nat
+
   val eqb : nat -> nat -> bool
 
   val leb : nat -> nat -> bool
 
   val ltb : nat -> nat -> bool
+
+  val divmod : nat -> nat -> nat -> nat -> nat * nat
+
+  val modulo : nat -> nat -> nat
  end
+
+val nth_error : 'a1 list -> nat -> 'a1 option
+
+val removelast : 'a1 list -> 'a1 list
+
+val rev : 'a1 list -> 'a1 list
+
+val concat : 'a1 list list -> 'a1 list
+
+val map : ('a1 -> 'a2) -> 'a1 list -> 'a2 list
+
+val flat_map : ('a1 -> 'a2 list) -> 'a1 list -> 'a2 list
+
+val forallb : ('a1 -> bool) -> 'a1 list -> bool
+
+val firstn : nat -> 'a1 list -> 'a1 list
+
+val skipn : nat -> 'a1 list -> 'a1 list
+
+val repeat : 'a1 -> nat -> 'a1 list
 
 type positive =
 | XI of positive
@@ -130,22 +154,6 @@ module N :
   val to_nat : n -> nat
  end
 
-val rev : 'a1 list -> 'a1 list
-
-val concat : 'a1 list list -> 'a1 list
-
-val map : ('a1 -> 'a2) -> 'a1 list -> 'a2 list
-
-val flat_map : ('a1 -> 'a2 list) -> 'a1 list -> 'a2 list
-
-val forallb : ('a1 -> bool) -> 'a1 list -> bool
-
-val firstn : nat -> 'a1 list -> 'a1 list
-
-val skipn : nat -> 'a1 list -> 'a1 list
-
-val repeat : 'a1 -> nat -> 'a1 list
-
 module Z :
  sig
   val double : z -> z
@@ -166,21 +174,8 @@ module Z :
 
   val leb : z -> z -> bool
 
-  val eqb : z -> z -> bool
-
   val of_N : n -> z
  end
-
-type ascii =
-| Ascii of bool * bool * bool * bool * bool * bool * bool * bool
-
-val eqb0 : ascii -> ascii -> bool
-
-type string =
-| EmptyString
-| String of ascii * string
-
-val eqb1 : string -> string -> bool
 
 type bytes = n list
 
@@ -207,42 +202,6 @@ val rune_count : bytes -> nat
 val encode_rune : n -> bytes
 
 val encode : n list -> bytes
-
-type seg =
-| SLit of bytes
-| SAlpha of string * nat
-| SNum of string * nat
-| SStr of string * nat
-| SRaw of string
-| SItoa of string
-| SCustom of string * string
-| SUnknown of string
-
-type cut = { c_lo : nat; c_hi : nat; c_field : string; c_conv : string list;
-             c_const : bytes option }
-
-val mkcut : nat -> nat -> string -> string list -> cut
-
-val mkconst : string -> bytes -> cut
-
-type indexing =
-| IRune
-| IByte
-
-type layout = { l_name : string; l_ix : indexing; l_segs : seg list;
-                l_cuts : cut list }
-
-type value =
-| VS of bytes
-| VI of z
-
-type recval = (string * value) list
-
-val lookup : recval -> string -> value option
-
-val gets : recval -> string -> bytes
-
-val geti : recval -> string -> z
 
 val spaces : nat -> bytes
 
@@ -278,98 +237,100 @@ val min_int64 : z
 
 val atoi : bytes -> z
 
-val atoi_opt : bytes -> z option
-
 val parseNumField : bytes -> z
 
-val aUTOENROLL : bytes
+type 'a res =
+| Ok of 'a
+| Err
+| Panic
 
-val eNR : bytes
+val bind : 'a1 res -> ('a1 -> 'a2 res) -> 'a2 res
 
-val render_custom : string -> recval -> bytes option
+val go_slice : 'a1 list -> nat option -> nat option -> 'a1 list res
 
-val render_seg : recval -> seg -> bytes
+val go_index : 'a1 list -> nat -> 'a1 res
 
-val render : layout -> recval -> bytes
+val sl : 'a1 list -> nat -> nat -> 'a1 list res
 
-val units : indexing -> bytes -> bytes list
+val b_sp : bytes
 
-val sub0 : bytes list -> nat -> nat -> bytes
+val is_empty : bytes -> bool
 
-val two : n -> n -> n
+val process_control : bytes -> bytes res
 
-val valid_date : bytes -> bool
+val item_research : bytes -> bytes res
 
-val valid_time : bytes -> bool
+val pop_check_serial : bytes -> bytes res
 
-val validateSettlementDate : bytes -> bytes
+val pop_terminal_city : bytes -> bytes res
 
-val ten_zeros : bytes
+val pop_terminal_state : bytes -> bytes res
 
-val trimRoutingNumberLeadingZero : bytes -> bytes
+val shr_card_exp : bytes -> bytes res
 
-val conv_str : string -> bytes -> bytes option
+val shr_doc_ref : bytes -> bytes res
 
-val conv_chain : string list -> bytes -> bytes option
+val catx_addenda_records : bytes -> bytes res
 
-val conv_value : string list -> bytes -> value option
+val catx_receiving : bytes -> bytes res
 
-val parse_cut : bytes list -> cut -> (string * value) list
+val catx_reserved : bytes -> bytes res
 
-val parse : layout -> bytes -> recval
+val set_catx_addenda_records : z -> bytes -> bytes res
 
-val overlay : recval -> recval -> recval
+val set_catx_receiving : bytes -> bytes -> bytes res
 
-val l_ADVBatchControl : layout
+val set_rdfi : bytes -> (bytes * bytes) res
 
-val l_ADVEntryDetail : layout
+val iat_payment_amount : bytes -> z res
 
-val l_ADVFileControl : layout
+val iat_addenda_information : bytes -> bytes res
 
-val l_Addenda02 : layout
+val a99_return_trace : bytes -> bytes res
 
-val l_Addenda05 : layout
+val a99_settlement_date : bytes -> bytes res
 
-val l_Addenda10 : layout
+val a99_reason_code : bytes -> bytes res
 
-val l_Addenda11 : layout
+val a99_extra : bytes -> bytes res
 
-val l_Addenda12 : layout
+val aba8 : bytes -> bytes res
 
-val l_Addenda13 : layout
+val first : nat -> bytes -> bytes res
 
-val l_Addenda14 : layout
+val trc_entry_check : bytes -> unit res
 
-val l_Addenda15 : layout
+val shr_entry_check : bytes -> (bytes * bytes) res
 
-val l_Addenda16 : layout
+val record_length : nat
 
-val l_Addenda17 : layout
+val ends_with_space : bytes -> bool
 
-val l_Addenda18 : layout
+val trim_suffix_space : bytes -> bytes
 
-val l_Addenda98 : layout
+val trim_long : bytes -> bytes res
 
-val l_Addenda98Refused : layout
+val right_pad : bytes -> bytes res
 
-val l_Addenda99 : layout
+type rec_kind =
+| KFileHeader
+| KBatchHeaderIAT
+| KBatchHeader
+| KEntryDetail
+| KAddenda of bytes * bytes
+| KBatchControl
+| KFileControl
+| KPadding
+| KUnknown
 
-val l_Addenda99Contested : layout
+val iat_code : bytes
 
-val l_Addenda99Dishonored : layout
+val iatcor_code : bytes
 
-val l_BatchControl : layout
+val parse_line : bytes -> rec_kind res
 
-val l_BatchHeader : layout
+val fixed_width :
+  (n * bytes) list -> nat -> bytes -> (bytes * rec_kind) list ->
+  (bytes * rec_kind) list res
 
-val l_EntryDetail : layout
-
-val l_FileControl : layout
-
-val l_FileHeader : layout
-
-val l_IATBatchHeader : layout
-
-val l_IATEntryDetail : layout
-
-val all_layouts : layout list
+val read_line : bool -> bytes -> (bytes * rec_kind) list res
